@@ -88,6 +88,208 @@ fn exec(m: &mut dyn Machine, mode: i64, jit: bool) -> Exec {
     }
 }
 
+
+/// Exhaustive operand sweeps (an enumeration stratum next to the seeded search): every register-only 8-bit form is run over
+/// its whole operand space in both engines. (cb, opcode, kind, operand): kind 0 = ALU A,x (A x operand x 4 flag patterns),
+/// 1 = A-only (A x 16 flag states), 2 = INC/DEC rr (65536 values x 2), 3 = ADD HL,rr (65536 x 24 x 1), 4 = LD r,r' (256 x 2),
+/// 5 = INC/DEC r and CB-prefixed (256 values x 16 flag states). operand: 0-5 = B C D E H L, 6 = (HL), 7 = A; rr: 0-3 = BC DE HL SP.
+pub fn sweep_forms() -> Vec<(bool, u8, u8, u8)> {
+    let mut v = Vec::new();
+    for op in 0x80..=0xbfu8 {
+        v.push((false, op, 0, op & 7));
+    }
+    for op in [0x07u8, 0x0f, 0x17, 0x1f, 0x27, 0x2f, 0x37, 0x3f] {
+        v.push((false, op, 1, 7));
+    }
+    for r in 0..8u8 {
+        v.push((false, 0x04 | r << 3, 5, r));
+        v.push((false, 0x05 | r << 3, 5, r));
+    }
+    for rr in 0..4u8 {
+        v.push((false, 0x03 | rr << 4, 2, rr));
+        v.push((false, 0x0b | rr << 4, 2, rr));
+        v.push((false, 0x09 | rr << 4, 3, rr));
+    }
+    for op in 0x40..=0x7fu8 {
+        if op != 0x76 {
+            v.push((false, op, 4, op & 7));
+        }
+    }
+    for op in 0..=255u8 {
+        v.push((true, op, 5, op & 7));
+    }
+    v
+}
+
+const SWEEP_PC: u32 = 0x0200;
+const SWEEP_STRIDE: u64 = 477;
+const SWEEP_MEM: u16 = 0xc100;
+
+fn put8(r: &mut Regs, idx: u8, v: u8) {
+    let v = v as u32;
+    match idx {
+        0 => r.bc = (r.bc & 0x00ff) | v << 8,
+        1 => r.bc = (r.bc & 0xff00) | v,
+        2 => r.de = (r.de & 0x00ff) | v << 8,
+        3 => r.de = (r.de & 0xff00) | v,
+        4 => r.hl = (r.hl & 0x00ff) | v << 8,
+        5 => r.hl = (r.hl & 0xff00) | v,
+        7 => r.af = (r.af & 0x00ff) | v << 8,
+        _ => {}
+    }
+}
+
+fn put16(r: &mut Regs, idx: u8, v: u16) {
+    match idx {
+        0 => r.bc = v as u32,
+        1 => r.de = v as u32,
+        2 => r.hl = v as u32,
+        _ => r.sp = v as u32,
+    }
+}
+
+/// Runs one form over its operand space; returns the first disagreement.
+fn sweep(j: &mut dyn Machine, i: &mut dyn Machine, cb: bool, opc: u8, kind: u8, operand: u8, focus_c02: bool, ctx: &mut Ctx, opi: usize) -> Option<Violation> {
+    let base = Regs { af: 0x5a00, bc: 0x1234, de: 0x5678, hl: 0x9abc, sp: 0xdff0, ip: SWEEP_PC, cycles: 0 };
+    let uses_mem = |idx: u8| idx == 6;
+    // LD r,r' : destination may be (HL) as well
+    let dst = if kind == 4 { (opc >> 3) & 7 } else { operand };
+    let mem_form = kind != 2 && kind != 3 && kind != 1 && (uses_mem(operand) || uses_mem(dst));
+    let mut n: u64 = 0;
+    let mut check = |r: Regs, memv: Option<u8>, what: &dyn Fn() -> String, j: &mut dyn Machine, i: &mut dyn Machine| -> Option<Violation> {
+        j.set_regs(r);
+        i.set_regs(r);
+        if let Some(v) = memv {
+            j.write(SWEEP_MEM, v);
+            i.write(SWEEP_MEM, v);
+        }
+        let ej = exec(j, 0, true);
+        let ei = exec(i, 0, false);
+        let (sj, si) = match (&ej, &ei) {
+            (Exec::Done(a), Exec::Done(b)) => (*a, *b),
+            _ => return Some(Violation::new("C01", "C01/sweep/panicked".to_string(), format!("op {}: sweep {}: an engine panicked", opi, what()))),
+        };
+        let (rj, ri) = (j.regs(), i.regs());
+        if focus_c02 {
+            if rj.cycles != ri.cycles {
+                return Some(Violation::new("C02", format!("C02/cycles-differ/sweep/jit{:+}", rj.cycles as i64 - ri.cycles as i64), format!("op {}: sweep {}: translated code reports {} machine cycles, interpreter {}", opi, what(), rj.cycles, ri.cycles)));
+            }
+            return None;
+        }
+        if status_class(sj) != status_class(si) {
+            return Some(Violation::new("C01", "C01/sweep/status".to_string(), format!("op {}: sweep {}: status jit {} vs interpreter {}", opi, what(), sj, si)));
+        }
+        let (mut a, mut b) = (rj, ri);
+        a.cycles = 0;
+        b.cycles = 0;
+        if a != b {
+            let field = if a.af != b.af { "af" } else if a.bc != b.bc { "bc" } else if a.de != b.de { "de" } else if a.hl != b.hl { "hl" } else if a.sp != b.sp { "sp" } else { "pc" };
+            return Some(Violation::new("C01", format!("C01/sweep/{}", field), format!("op {}: sweep {}: jit {:x?} vs interpreter {:x?}", opi, what(), rj, ri)));
+        }
+        if memv.is_some() {
+            let (mj, mi) = (j.read(SWEEP_MEM), i.read(SWEEP_MEM));
+            if mj != mi {
+                return Some(Violation::new("C01", "C01/sweep/memory".to_string(), format!("op {}: sweep {}: (HL) afterwards jit {:#04x} vs interpreter {:#04x}", opi, what(), mj, mi)));
+            }
+        }
+        None
+    };
+    let name = format!("{}{:02x}", if cb { "cb " } else { "" }, opc);
+    match kind {
+        0 => {
+            for a in 0..=255u8 {
+                for v in 0..=255u8 {
+                    if operand == 7 && v != a {
+                        continue;
+                    }
+                    for f in [0x00u32, 0x10, 0xe0, 0xf0] {
+                        let mut r = base;
+                        if mem_form {
+                            r.hl = SWEEP_MEM as u32;
+                        }
+                        r.af = (a as u32) << 8 | f;
+                        put8(&mut r, operand, v);
+                        n += 1;
+                        if let Some(x) = check(r, if mem_form { Some(v) } else { None }, &|| format!("{} A={:#04x} operand={:#04x} F={:#04x}", name, a, v, f), j, i) {
+                            return Some(x);
+                        }
+                    }
+                }
+            }
+        }
+        1 | 5 => {
+            for v in 0..=255u8 {
+                for f in 0..16u32 {
+                    let mut r = base;
+                    if mem_form {
+                        r.hl = SWEEP_MEM as u32;
+                    }
+                    r.af = (r.af & 0xff00) | f << 4;
+                    put8(&mut r, if kind == 1 { 7 } else { operand }, v);
+                    n += 1;
+                    if let Some(x) = check(r, if mem_form { Some(v) } else { None }, &|| format!("{} value={:#04x} F={:#04x}", name, v, f << 4), j, i) {
+                        return Some(x);
+                    }
+                }
+            }
+        }
+        2 => {
+            for v in 0..=0xffffu16 {
+                for f in [0x00u32, 0xf0] {
+                    let mut r = base;
+                    r.af = (r.af & 0xff00) | f;
+                    put16(&mut r, operand, v);
+                    n += 1;
+                    if let Some(x) = check(r, None, &|| format!("{} rr={:#06x} F={:#04x}", name, v, f), j, i) {
+                        return Some(x);
+                    }
+                }
+            }
+        }
+        3 => {
+            const RR: [u16; 24] = [0x0000, 0x0001, 0x000f, 0x0010, 0x00ff, 0x0100, 0x07ff, 0x0800, 0x0fff, 0x1000, 0x1001, 0x7fff, 0x8000, 0x8001, 0xefff, 0xf000, 0xf001, 0xf7ff, 0xf800, 0xff00, 0xfff0, 0xfffe, 0xffff, 0x1234];
+            for hl in 0..=0xffffu16 {
+                for (k, rr) in RR.iter().enumerate() {
+                    let mut r = base;
+                    r.af = (r.af & 0xff00) | if k % 2 == 0 { 0x00 } else { 0xf0 };
+                    r.hl = hl as u32;
+                    if operand != 2 {
+                        put16(&mut r, operand, *rr);
+                    } else if k > 0 {
+                        continue;
+                    }
+                    n += 1;
+                    if let Some(x) = check(r, None, &|| format!("{} HL={:#06x} rr={:#06x}", name, hl, rr), j, i) {
+                        return Some(x);
+                    }
+                }
+            }
+        }
+        _ => {
+            for v in 0..=255u8 {
+                for f in [0x00u32, 0xf0] {
+                    let mut r = base;
+                    if mem_form {
+                        r.hl = SWEEP_MEM as u32;
+                    }
+                    r.af = (r.af & 0xff00) | f;
+                    // H / L as source while (HL) is the destination: the pointer itself is the value
+                    if !(uses_mem(dst) && (operand == 4 || operand == 5)) {
+                        put8(&mut r, operand, v);
+                    }
+                    n += 1;
+                    if let Some(x) = check(r, if mem_form { Some(if uses_mem(operand) { v } else { !v }) } else { None }, &|| format!("{} value={:#04x} F={:#04x}", name, v, f), j, i) {
+                        return Some(x);
+                    }
+                }
+            }
+        }
+    }
+    ctx.cov.add("sweep_executions", n);
+    ctx.cov.mark("swept_forms", (cb as u64) << 8 | opc as u64);
+    None
+}
+
 impl Scenario for BlockLockstep {
     fn name(&self) -> &'static str {
         "block_lockstep"
@@ -107,10 +309,10 @@ impl Scenario for BlockLockstep {
     }
     fn info(&self) -> Info {
         Info {
-            rule: "one case = one generated cartridge + one basic block (0..N defined non-terminating instructions + one terminator; run index i forces encoding i mod 500 to be the last body instruction or the terminator) placed in ROM, a drawn CPU/RAM/device state, and a cache-age schedule (cold, warm re-execution from a second state, flush between executions, arena pre-filled to a drawn offset); executed by CodeCache translate+call on replica J and by interpreter::run_code_block on replica I (25%: Core::run_code_block of the jit crate vs the non-jit crate). distinct_nontrivial = distinct (focus encoding, flags-in, HL region, SP region, cache age) cells in which the block executed to completion in both engines",
+            rule: "one case = one generated cartridge + one basic block (0..N defined non-terminating instructions + one terminator; run index i forces encoding i mod 500 to be the last body instruction or the terminator) placed in ROM, a drawn CPU/RAM/device state, and a cache-age schedule (cold, warm re-execution from a second state, flush between executions, arena pre-filled to a drawn offset); executed by CodeCache translate+call on replica J and by interpreter::run_code_block on replica I (25%: Core::run_code_block of the jit crate vs the non-jit crate). 419 cases per batch are exhaustive operand sweeps instead (one register-only 8-bit form each, over its whole operand and flag space in both engines; counter sweep_executions, reach set swept_forms). distinct_nontrivial = distinct (focus encoding, flags-in, HL region, SP region, cache age) cells in which the block executed to completion in both engines",
             components_real: &["emitter::x86_64 (all encode_* templates reached by the generated blocks)", "cache::CodeCache translate_code_block/call/get_address_for_ip", "interpreter::run_code_block", "decoder::decode", "mem bus helpers, IO, cart state", "Core::run_code_block tail (mode 1)"],
             components_stub: &["devices are real but only advanced during set-up (and in the mode-1 tail)", "host window / event loop absent"],
-            assumptions: &["the 11 undefined opcodes are not generated", "blocks stay inside one ROM region (no instruction straddles 0x3FFF/0x4000 or runs past 0x7FFF)", "cartridges have 32 KiB cartridge RAM and bank selections are within the ROM, so no access is C11's subject", "a block located in the switchable bank that changes its own bank mid-block is classified under a separate signature (known finding when listed)", "captured stdout is not compared here (C18/C04)"],
+            assumptions: &["the 11 undefined opcodes are not generated", "blocks stay inside one ROM region (no instruction straddles 0x3FFF/0x4000 or runs past 0x7FFF)", "cartridges have 32 KiB cartridge RAM and bank selections are within the ROM, so no access is C11's subject", "captured stdout is not compared here (C18/C04)"],
             fault_kinds: &["flush (cache emptied between two executions)", "arena (placement offset / small arena via H2)", "bank (block placed in a drawn switchable bank)", "step (engine-level vs Core::run_code_block)"],
         }
     }
@@ -145,6 +347,28 @@ impl Scenario for BlockLockstep {
             let f = (rng.below(16) << 4) as i64;
             case.push("regs", &[0x1200 | f, 0x8013, 0x80d8, 0xc100, 0xdff0, start as i64, 0]);
             case.push("exec", &[]);
+            return;
+        }
+        // operand-sweep stratum: every SWEEP_STRIDE-th index up to 419 x SWEEP_STRIDE (inside the quick batch of 200000, spread
+        // over the workers' chunks) is an exhaustive sweep of one form; independent of VERIF_SEED
+        let forms = sweep_forms();
+        if index % SWEEP_STRIDE == 0 && ((index / SWEEP_STRIDE) as usize) < forms.len() {
+            let (cb, opc, kind, operand) = forms[(index / SWEEP_STRIDE) as usize];
+            let mut code: Vec<u8> = if cb { vec![0xcb, opc] } else { vec![opc] };
+            code.extend([0xc3, SWEEP_PC as u8, (SWEEP_PC >> 8) as u8]);
+            case.set("focus", if cb { 0x100 } else { 0 } | opc as i64);
+            case.set("cart_type", 0);
+            case.set("rom_code", 0);
+            case.set("ram_code", 3);
+            case.set("rom_fill", 0);
+            case.set("ramfill", 0);
+            case.set("mode", 0);
+            case.set("hostmm", 0);
+            case.set("term", 0xc3);
+            case.set("age", 0);
+            case.set("sweep", 1);
+            case.blobs.insert(patch_key(SWEEP_PC as usize), code);
+            case.push("sweep", &[cb as i64, opc as i64, kind as i64, operand as i64]);
             return;
         }
         let (cb, fop) = sm83::focus_encoding(index);
@@ -443,6 +667,12 @@ impl Scenario for BlockLockstep {
                     };
                     j.set_regs(r);
                     i.set_regs(r);
+                }
+                "sweep" => {
+                    if let Some(v) = sweep(j, i, op.arg(0) != 0, op.arg(1) as u8, op.arg(2) as u8, op.arg(3) as u8, focus_c02, ctx, opi) {
+                        out.push(v);
+                        return out;
+                    }
                 }
                 "flush" => {
                     if !j.cache_entries().is_empty() {
